@@ -2,6 +2,7 @@
 From Coq Require Import List NArith ZArith Bool.
 From PKO Require Import Util Base Owner Api Phase ObjectSet.
 From PKOCorr Require Import PhaseCorr SetCorr.
+From PKOCorr Require C15Corr.
 Import ListNotations.
 Local Open Scope N_scope.
 
@@ -57,9 +58,13 @@ Section Mon.
            match fph with
            | None => true
            | Some n =>
-               match find (fun ph => ph_name ph =? n) (locals m) with
+               match find (fun ph => ph_name ph =? n) (os_phases m) with
                | None => false
                | Some ph =>
+                   if ph_class ph then
+                     (* a delegated phase is named only if its phase object was not seen Available for its generation *)
+                     negb (C15Corr.seen_available (C15Corr.join m ph) (sc_events c))
+                   else
                    negb (phase_okb m (sc_post c) ph) &&
                    match phase_index m (locals m) (match pkeys m ph with k :: _ => k | [] => Build_okey 0 0 0 end) O with
                    | Some j => forallb (phase_okb m (sc_post c)) (firstn j (locals m)) &&
@@ -129,7 +134,12 @@ Section Mon.
                 option_eqb cond_eqb (find_cond (os_conds m) CAvailable) (Some cd) ||
                 (Z.eqb (cd_gen cd) (os_gen m) && match fph with None => true | Some _ => false end &&
                  forallb (phase_okb m (sc_post c)) (locals m) &&
-                 forallb (fun k => match lookup k (sc_post c) with Some o => is_controller Native (os_id m) o | None => false end) co &&
+                 forallb (fun k => match lookup k (sc_post c) with Some o => is_controller Native (os_id m) o | None => false end ||
+                                   (* or reported by a delegated phase's phase object, controlled by the ObjectSet, read in this pass *)
+                                   existsb (fun ph => match C15Corr.last_seen (C15Corr.join m ph) (sc_events c) None with
+                                                      | Some (Some cur) => controlled_by_uid (op_owners cur) (oi_uid (os_id m)) &&
+                                                                           existsb (okey_eqb k) (op_ctrlof cur)
+                                                      | _ => false end) (C15Corr.delegated m)) co &&
                  forallb (fun k => match lookup k (sc_post c) with
                                    | Some o => negb (is_controller Native (os_id m) o) || existsb (okey_eqb k) co
                                    | None => true end) (all_keys m))
@@ -195,9 +205,26 @@ Section Mon.
     end.
 End Mon.
 
-Definition judge03 (c : scase) : bool * bool := (agree c, m03 c).
-Definition judge04 (c : scase) : bool * bool := (agree c, m04 c).
-Definition judge06 (c : scase) : bool * bool := (agree c, m06 c).
+(** The pass as an observation of the delegation monitors (C15Corr): the same clauses for delegated phases. *)
+Definition as_dobs (c : scase) : C15Corr.dobs :=
+  {| C15Corr.ds_step := C15Corr.DSet (sc_kind c) (sc_ns c) (sc_name c); C15Corr.ds_res := sc_res c;
+     C15Corr.ds_events := sc_events c; C15Corr.ds_rv := sc_rv' c; C15Corr.ds_uid := sc_uid' c;
+     C15Corr.ds_pre_set := find_set (sc_sets c) (sc_kind c) (sc_ns c) (sc_name c); C15Corr.ds_pre_phase := None |}.
+
+(** C03 with delegated phases: a later phase is written only after every earlier delegated phase's phase object was
+    seen Available for its current generation; Available=True only if all were. *)
+Definition m03d (c : scase) : bool := C15Corr.m_gate (as_dobs c) && C15Corr.m_relay (as_dobs c).
+(** C04 / C05 with delegated phases: reverse order incl. phase objects, finalizer held until they are gone, nothing
+    deleted under orphan propagation. *)
+Definition m04d (c : scase) : bool := C15Corr.m_teardown (as_dobs c).
+(** C06 with delegated phases: Available=True only from phase objects read in this pass, controlled by the
+    ObjectSet, Available for their own generation. *)
+Definition m06d (c : scase) : bool := C15Corr.m_relay (as_dobs c) && C15Corr.m_own (as_dobs c).
+
+Definition judge03 (c : scase) : bool * bool := (agree c, m03 c && m03d c).
+Definition judge04 (c : scase) : bool * bool := (agree c, m04 c && m04d c).
+Definition judge05s (c : scase) : bool * bool := (agree c, m04d c && match target c with Some m => negb (is_goingb m) || negb (os_orphan m) || is_nil (members c) | None => true end).
+Definition judge06 (c : scase) : bool * bool := (agree c, m06 c && m06d c).
 Definition judge09 (c : scase) : bool * bool := (agree c, m09 c).
 Definition judge11 (c : scase) : bool * bool := (agree c, m11 c).
-Definition judge_all (c : scase) : list bool := [agree c; m01 c; m03 c; m04 c; m06 c; m09 c; m11 c].
+Definition judge_all (c : scase) : list bool := [agree c; m01 c; m03 c && m03d c; m04 c && m04d c; m06 c && m06d c; m09 c; m11 c].
